@@ -2,7 +2,8 @@
 strategies.py, tasks.py, data.py, series_as_features/model_selection/_split.py).
 
 case (kind "hist") = {
-  "kind": "hist", "store": "hdd"|"ram", "learner": ["cls", ncls] | ["reg"], "labels": "int"|"str"|"numstr",
+  "kind": "hist", "store": "hdd"|"ram", "learner": ["cls", ncls] | ["reg"], "labels": "int"|"str"|"numstr"|"nastr",
+  "labnames": (scheme "nastr") the ncls class names, at least one spelled like a missing csv cell ("NA", "null", "", ..),
   "datasets": [{"name", "tpos", "feats": null|[col positions], "rows": [[cells]], "labels": null|"RRE..",
                 "rowidx": optional row labels of the DataFrame (permuted / offset / gapped / duplicated ints, or strings);
                           absent = RangeIndex}],
@@ -42,6 +43,8 @@ OBLIGATIONS = [
     "SkVerif.C19.mkWork_keys_injective",
     "SkVerif.C19.validate_ok_names_nodup",
     "SkVerif.C19.original_ram_key_collision",
+    "SkVerif.C19.record_one_prediction_per_instance",
+    "SkVerif.C19.existence_checks_ignore_content",
 ]
 TRUSTED = [
     "hand-written model SkVerif/Model/Orch.lean of Orchestrator.fit_predict / _iter and of the two result stores",
@@ -57,7 +60,8 @@ ASSUMPTIONS = [
 ]
 RULE = ("exhaustive small scope: for fixed small configurations, every failure point k x option combinations x "
         "{fresh, reused} results object, followed by resume / re-run / overwrite runs (quick: seed-rotated slice); "
-        "structured random histories (1-3 datasets, 1-3 strategies, k-fold / single split / pre-split CV, RAM and HDD); "
+        "structured random histories (1-3 datasets, 1-3 strategies, k-fold incl. leave-one-out / single split / pre-split CV, "
+        "parts of exactly one instance, class labels as ints / bools / strings / strings spelled like a missing csv cell, RAM and HDD); "
         "malformed stream (invalid names, option conflicts). distinct by driver line; "
         "non-trivial = at least one run completed and stored a record")
 LEVEL_TEXT = ("proof (Lean 4) of the skip/fit/save/predict/save logic of Orchestrator.fit_predict for all work lists, failure "
@@ -103,13 +107,27 @@ def _predict_rows(w, X, ncls):
     return [Fraction(int(w + _row_sum(x)) % ncls) for x in X]
 
 
+# spellings that pandas.read_csv (default na_values) takes for a missing cell; usable as class labels
+_NA_LIKE = ["NA", "null", "None", "nan", "n/a", "NULL", "<NA>", "", "N/A", "NaN", "#N/A", "-nan", "#NA", "-NaN"]
+_PLAIN = ["B", "yes", "Lx", "c-1"]
+
+
+def _labspec(c):
+    """what the label helpers take: the scheme's name, or (scheme "nastr") the tuple of the class names"""
+    return tuple(c["labnames"]) if c["labels"] == "nastr" else c["labels"]
+
+
 def _lab_out(i, labels):
+    if isinstance(labels, (tuple, list)):
+        return labels[i]
     if labels == "bool":
         return bool(i)
     return i if labels == "int" else ("L%d" % i if labels == "str" else "%d" % i)
 
 
 def _lab_in(v, labels):
+    if isinstance(labels, (tuple, list)):
+        return list(labels).index(v)
     if labels == "int":
         return v
     if labels == "bool":
@@ -228,7 +246,7 @@ def _frame(c, d):
         col = [r[i] for r in d["rows"]]
         if i == d["tpos"]:
             if _ncls(c):
-                col = [_lab_out(int(v), c["labels"]) for v in col]
+                col = [_lab_out(int(v), _labspec(c)) for v in col]
                 if c["labels"] in ("int", "bool"):
                     col = np.array(col, dtype=_tdtype(c))
             else:
@@ -397,9 +415,9 @@ def _build(c, run=None):
     strategies = []
     for s in (c["strategies"] if run is None else c["strategies"][:_ns(c, run)]):
         if ncls and c.get("proba"):
-            est = C19ProbaClassifier(p=s["p"], ncls=ncls, labels=c["labels"], proba=c["proba"])
+            est = C19ProbaClassifier(p=s["p"], ncls=ncls, labels=_labspec(c), proba=c["proba"])
         else:
-            est = (Cl if ncls else Rg)(p=s["p"], ncls=ncls, labels=c["labels"])
+            est = (Cl if ncls else Rg)(p=s["p"], ncls=ncls, labels=_labspec(c))
         strategies.append((TSCStrategy if ncls else TSRStrategy)(est, name=_real(s)))
     return tasks, datasets, strategies, _cv_object(c)
 
@@ -415,9 +433,9 @@ def _val(v, c):
     if _ncls(c) and c["labels"] not in ("int", "bool"):
         if isinstance(v, str):
             try:
-                return str(_lab_in(v, c["labels"]))
+                return str(_lab_in(v, _labspec(c)))
             except Exception:
-                return "T:str:" + v
+                return "T:str:" + _safe(v)
         return "T:%s:%s" % (type(v).__name__.replace("64", "").replace("numpy.", ""), v)
     if isinstance(v, str):
         try:
@@ -431,14 +449,35 @@ def _val(v, c):
     return show_rat(int(v))
 
 
+def _shape_tag(x):
+    """None for a one-dimensional sequence; else a tag that names the shape of a malformed record field"""
+    try:
+        nd = np.ndim(x)
+    except Exception:
+        return "T:shape?"
+    if nd == 1 or isinstance(x, (list, tuple, range)):
+        return None
+    return "T:shape(%s)" % "x".join(str(k) for k in np.shape(x))
+
+
 def _vals(l, c):
+    tag = _shape_tag(l)
+    if tag:   # e.g. a 0-d array where one value per instance belongs
+        flat = np.asarray(l, dtype=object).ravel().tolist()
+        return tag + ":" + ";".join(_val(v, c) for v in flat)
     l = list(l)
     return "-" if not l else ",".join(_val(v, c) for v in l)
 
 
 def _ints(l):
+    tag = _shape_tag(l)
+    if tag:
+        return tag + ":" + ";".join(str(v) for v in np.asarray(l, dtype=object).ravel().tolist())
     l = list(l)
-    return "-" if not l else ",".join(str(int(v)) for v in l)
+    try:
+        return "-" if not l else ",".join(str(int(v)) for v in l)
+    except Exception:
+        return "T:index:" + ";".join(_safe(v) for v in l)
 
 
 def _alias_hdd_key(key, c):
@@ -637,8 +676,8 @@ def _rat(v):
 def to_line(c):
     if c["kind"] == "init":
         return "C19 init %d %d %s" % (c["ntasks"], c["ndatasets"], _join(c["names"], ","))
-    if c.get("labels") == "numstr":
-        return None  # the model has no notion of csv type inference; oracle only
+    if c.get("labels") == "numstr" or (c.get("labels") == "nastr" and c["store"] == "hdd"):
+        return None  # the model has no notion of csv type inference / missing-value spellings; oracle only
     dss = []
     for d in c["datasets"]:
         rows = "|".join(",".join(_rat(v) for v in r) for r in d["rows"])
@@ -739,6 +778,51 @@ def _section(d, i, name, sep="|"):
     return [] if v == "-" else v.split(sep)
 
 
+def _shape_fault(content):
+    """which field of a stored record 'idx@y_true@y_pred' is not one value per recorded instance (None = all are)"""
+    parts = content.split("@")
+    if len(parts) != 3:
+        return "record"
+    names = ("index", "y_true", "y_pred")
+    for nm, p_ in zip(names, parts):
+        if p_.startswith("T:shape") or p_.startswith("T:index"):
+            return nm
+    lens = [0 if p_ == "-" else len(p_.split(",")) for p_ in parts]
+    if lens[2] != lens[0]:
+        return "y_pred"
+    if lens[1] != lens[0]:
+        return "y_true"
+    return None
+
+
+def _na_masked_equal(c, exp, got):
+    """scheme "nastr" on disk: `got` (what load_predictions returned) equals `exp` (what is stored) except that
+    values stored as a label spelled like a missing cell came back as NaN - and nothing else differs"""
+    if c.get("labels") != "nastr" or got is None or got.startswith("E:"):
+        return False
+    na_idx = set(str(i) for i, nm in enumerate(c["labnames"]) if nm in _NA_LIKE)
+    ee, gg = exp.split("&"), got.split("&")
+    if len(ee) != len(gg):
+        return False
+    hit = False
+    for e, g in zip(ee, gg):
+        ef, gf = e.split("~"), g.split("~")
+        if len(ef) != 5 or len(gf) != 5 or ef[:3] != gf[:3]:
+            return False
+        for ev, gv in zip(ef[3:], gf[3:]):
+            el, gl = ev.split(","), gv.split(",")
+            if len(el) != len(gl):
+                return False
+            for a, b in zip(el, gl):
+                if a == b:
+                    continue
+                if b == "T:float:nan" and a in na_idx:
+                    hit = True
+                    continue
+                return False
+    return hit
+
+
 def oracle(c, out):
     fails = []
     if c["kind"] == "init":
@@ -815,7 +899,14 @@ def oracle(c, out):
                 continue
             if its[0] not in requested_ever:
                 fails.append((site + ":record-not-requested", "run %d: record %s stored but never requested" % (i, k)))
-            if content != hon_recs[its[0]]:
+            fault = _shape_fault(content)
+            if fault and content != hon_recs[its[0]]:
+                # one value per recorded instance: the clone's predict gives len(idx) predictions, in one dimension
+                fails.append((site + (":stored-prediction-shape-differs-from-clone-predict" if fault == "y_pred"
+                                      else ":stored-record-field-not-one-value-per-instance"),
+                              "run %d: record %s = %s: %s is not one value per recorded instance; fitting a clone on the "
+                              "fold's training instances and predicting the recorded instances gives %s" % (i, k, content, fault, hon_recs[its[0]])))
+            elif content != hon_recs[its[0]]:
                 key = site + ":record-differs-from-honest-fold"
                 if c["labels"] == "numstr" and "T:" in content:
                     key = "HDDResults.save_predictions:numeric-string-labels-read-back-as-numbers"
@@ -943,6 +1034,8 @@ def oracle(c, out):
                                 k = "load_predictions:omits-skipped-work-after-new-results-object"
                             elif c["labels"] == "numstr" and got and "T:" in got:
                                 k = "HDDResults.load_predictions:numeric-string-labels-read-back-as-numbers"
+                            elif hdd and _na_masked_equal(c, "&".join(exp), got):
+                                k = "HDDResults.load_predictions:na-like-labels-read-back-as-missing"
                             fails.append((k, "run %d: load_predictions(%d, %s) = %s, stored %s" % (i, f, part, got, "&".join(exp))))
                 # ---- and so does a NEW results object over the same path that takes the names from the master file
                 mst = d.get("r%d.master" % i, "none")
@@ -964,6 +1057,8 @@ def oracle(c, out):
                                 k = "load_predictions:new-results-object-differs-from-stored"
                                 if c["labels"] == "numstr" and got and "T:" in got:
                                     k = "HDDResults.load_predictions:numeric-string-labels-read-back-as-numbers"
+                                elif _na_masked_equal(c, "&".join(exp), got):
+                                    k = "HDDResults.load_predictions:na-like-labels-read-back-as-missing"
                                 fails.append((k, "run %d: a new HDDResults over the path gives load_predictions(%d, %s) = %s, stored %s" % (i, f, part, got, "&".join(exp))))
         prev_recs, prev_strats = recs, strats
         prev_master, prev_reg = d.get("r%d.master" % i, "none"), d.get("r%d.reg" % i, "-+-")
@@ -998,10 +1093,14 @@ def features(c, out):
                ("str" if isinstance(ri[0], str) else ("dup-int" if len(set(ri)) < len(ri) else
                ("perm-int" if sorted(ri) == list(range(len(ri))) else "other-int"))))
         _rowidx_feats.append("rowidx=" + f_ri)
-    f = _rowidx_feats + ["target=%s/%s" % (c["learner"][0], _tdtype(c) if c["labels"] not in ("str", "numstr") else c["labels"]),
+    f = _rowidx_feats + ["target=%s/%s" % (c["learner"][0], _tdtype(c) if c["labels"] not in ("str", "numstr", "nastr") else c["labels"]),
                          "proba=" + str(c.get("proba")) if _ncls(c) else "proba=n/a", "store=" + c["store"], "cv=" + c["cv"]["kind"] + ("-shuffle" if c["cv"].get("shuffle") else ""),
          "learner=" + c["learner"][0], "labels=" + c["labels"],
          "nstrat=%d" % len(c["strategies"]), "ndata=%d" % len(c["datasets"]), "nruns=%d" % len(c["runs"])]
+    if c["labels"] == "nastr":
+        f.append("na-like-labels=%d/%d" % (sum(1 for nm in c["labnames"] if nm in _NA_LIKE), len(c["labnames"])))
+    sizes = [len(p_) for dd in c["datasets"] for fs in [_folds(c, dd)] for tr_te in fs for p_ in tr_te]
+    f.append("min-part-size=%s" % (min(sizes) if sizes else "-"))
     for i, r in enumerate(c["runs"]):
         f.append("out=" + str(d.get("r%d.out" % i)))
         f.append("opts=%s%s%s%s" % (show_bool(r["owP"]), show_bool(r["owF"]), show_bool(r["saveF"]), show_bool(r["pot"])))
@@ -1228,6 +1327,14 @@ def _exhaustive(rng, tier):
     return cases
 
 
+def _na_names(rng, ncls):
+    """class names of which at least one is spelled like a missing csv cell; the others plain or also NA-like"""
+    k = rng.randrange(1, ncls + 1)
+    names = rng.sample(_NA_LIKE, k) + rng.sample(_PLAIN, ncls - k)
+    rng.shuffle(names)
+    return names
+
+
 _NAMES = ["s0", "s1", "knn", "rf", "a_b", "a", "m1", "Z"]
 _DNAMES = ["d0", "d1", "gun", "b_c", "t_1", "c"]
 
@@ -1254,14 +1361,17 @@ def _random_case(rng):
     elif kind == "single-unseeded":
         cv = {"kind": "single-unseeded", "t": rng.choice([1, 2, 3]), "rs": rng.randrange(100)}
     elif kind.startswith("kfold"):
-        cv = {"kind": "kfold", "k": rng.choice([2, 3]), "shuffle": kind.endswith("shuffle"), "rs": rng.randrange(100)}
+        loo = rng.random() < 0.2     # leave-one-out on the smallest dataset: parts of exactly one instance
+        cv = {"kind": "kfold", "k": min(len(d["rows"]) for d in dss) if loo else rng.choice([2, 3]), "shuffle": kind.endswith("shuffle"), "rs": rng.randrange(100)}
     elif kind.startswith("single"):
         cv = {"kind": "single", "t": rng.choice([1, 2, 3]), "shuffle": kind.endswith("shuffle"), "rs": rng.randrange(100)}
     else:
         cv = {"kind": "presplit", "k": 2 if kind.endswith("inner") else None}
     c = {"kind": "hist", "store": store, "learner": ["cls", ncls] if ncls else ["reg"],
-         "labels": rng.choice(["int", "int", "str"]) if ncls else "int",
+         "labels": rng.choice(["int", "int", "str", "nastr"]) if ncls else "int",
          "datasets": dss, "strategies": [{"name": nm, "p": rng.randrange(-3, 8)} for nm in snames], "cv": cv}
+    if c["labels"] == "nastr":
+        c["labnames"] = _na_names(rng, ncls)
     c = _apply_tdtype(c, _pick_tdtype(rng, ncls, c["labels"]))
     if ncls:
         pk = rng.choice([None, None, "last", "last", "decoupled"])
